@@ -1,2 +1,283 @@
-(** C17.v — placeholder while the proofs are being written. *)
+(** C17 — Commands return within their timeouts and leave no probes behind.
+
+    All theorems are about EVERY trace accepted by the timing view
+    model/M5time.v ([run step init tr = Some _]): any number of targets,
+    requests and commands, any three timeouts.  The view's rules are checked
+    against the real code by tools/c17.py (every recorded trace must be accepted).
+
+    Idealisation, explicit in the statements: the time bounds are stated for the
+    part of a trace in which no goroutine has been parked at a harness yield
+    ([no_parks prefix = true]; KParked/KReleased are artefacts of the harness and
+    parked time is not the proxy's).  "CPU time is zero" is not an extra
+    hypothesis: it is a rule of the acceptor (an own step of a command carries
+    the timestamp of the latest event of its chain; a Drain call begins at the
+    time of the last own step of its command), true of every real trace on the
+    virtual clock. *)
+From Coq Require Import ZifyN ZifyNat ZifyBool.
 From KP Require Import model.Base model.Trace model.M5time.
+From KP Require Import proofs.M5timeFacts proofs.M5timeFacts2 proofs.M5timeFacts3 proofs.M5timeFacts4
+                       proofs.M5timeFacts5 proofs.M5timeFacts6 proofs.M5timeFacts7 proofs.M5timeFacts8.
+Local Open Scope N_scope.
+
+(** [tr = pre ++ eI :: eP :: mid ++ eR :: post]: the command [c] is issued by
+    [eI] with the durations of [eP], and returns with [eR]. *)
+
+Theorem c17_deploy_bound :
+  forall pre eI eP mid eR post c k name dt drt fa r s,
+    run step init (pre ++ eI :: eP :: mid ++ eR :: post) = Some s ->
+    e_k eI = KIssue c k name -> e_k eP = KParams c dt drt fa -> e_k eR = KReturn c r ->
+    no_parks (pre ++ eI :: eP :: mid) = true ->
+    is_deploy k = true ->
+    e_t eR <= e_t eI + dt + drt.
+Proof. exact deploy_bound_trace. Qed.
+Print Assumptions c17_deploy_bound.
+
+Theorem c17_pause_stop_bound :
+  forall pre eI eP mid eR post c k name dt drt fa r s,
+    run step init (pre ++ eI :: eP :: mid ++ eR :: post) = Some s ->
+    e_k eI = KIssue c k name -> e_k eP = KParams c dt drt fa -> e_k eR = KReturn c r ->
+    no_parks (pre ++ eI :: eP :: mid) = true ->
+    is_pause_stop k = true ->
+    e_t eR <= e_t eI + drt.
+Proof. exact pause_stop_bound_trace. Qed.
+Print Assumptions c17_pause_stop_bound.
+
+(** resume, remove, rollout set, rollout stop *)
+Theorem c17_nonblocking :
+  forall pre eI eP mid eR post c k name dt drt fa r s,
+    run step init (pre ++ eI :: eP :: mid ++ eR :: post) = Some s ->
+    e_k eI = KIssue c k name -> e_k eP = KParams c dt drt fa -> e_k eR = KReturn c r ->
+    no_parks (pre ++ eI :: eP :: mid) = true ->
+    is_deploy k = false -> is_pause_stop k = false ->
+    e_t eR = e_t eI.
+Proof. exact nonblocking_trace. Qed.
+Print Assumptions c17_nonblocking.
+
+(** ** No probes left behind.  [quiet_ts s ts]: no target of [ts] has a live
+    probe loop in state [s]; [s4] is the state after ANY accepted continuation
+    [post] of the trace, so the loops are stopped for ever. *)
+
+(** A failed deploy (unhealthy, host conflict — D4 repaired; with an invalid
+    target name no balancer is created at all): [eN] is the creation of its
+    balancer with the targets [ts]. *)
+Theorem c17_no_probes_after_failed_deploy :
+  forall pre eN mid eR post s4 c lb ts code,
+    run step init (pre ++ eN :: mid ++ eR :: post) = Some s4 ->
+    e_by eN = ACmd c -> e_k eN = KLbNew lb ts -> e_k eR = KReturn c (CRErr code) ->
+    quiet_ts s4 ts.
+Proof. exact no_probes_failed_deploy. Qed.
+Print Assumptions c17_no_probes_after_failed_deploy.
+
+(** A successful redeploy: [eS] is its slot update, replacing balancer [old]. *)
+Theorem c17_no_probes_after_redeploy :
+  forall pre eS mid eR post s4 c svc ro lb old,
+    run step init (pre ++ eS :: mid ++ eR :: post) = Some s4 ->
+    e_by eS = ACmd c -> e_k eS = KSlot svc ro lb (Some old) -> e_k eR = KReturn c CROk ->
+    exists s2, run step init (pre ++ eS :: mid) = Some s2 /\ quiet_ts s4 (lb_targets s2 old).
+Proof. exact no_probes_redeploy. Qed.
+Print Assumptions c17_no_probes_after_redeploy.
+
+(** A remove: from its KRemoved step on (which precedes its return), for the
+    active and rollout balancers of the removed service object. *)
+Theorem c17_no_probes_after_remove :
+  forall pre eX post s4 c svc,
+    run step init (pre ++ eX :: post) = Some s4 ->
+    e_by eX = ACmd c -> e_k eX = KRemoved svc ->
+    exists s0, run step init pre = Some s0 /\
+               forall lb, In lb (svc_lbs s0 svc) -> quiet_ts s4 (lb_targets s0 lb).
+Proof. exact no_probes_remove. Qed.
+Print Assumptions c17_no_probes_after_remove.
+
+(** Hence a probe accepted in a state where [ts] is quiet is owed to the live
+    loop of ANOTHER target of that name (a later deploy reusing the name). *)
+Theorem c17_no_probes_after :
+  forall pre e s ts n ok s',
+    run step init pre = Some s -> quiet_ts s ts -> step s e = Some s' -> e_k e = KProbeSent n ok ->
+    exists t n', ~ In t ts /\ tgt_probing s t = true /\ nget (tnames s) t = Some n' /\ str_eqb n n' = true.
+Proof. exact later_probe_elsewhere. Qed.
+Print Assumptions c17_no_probes_after.
+
+(** The pinned code (before fix 3d904ad) violates it: the rule variant
+    [step_pinned] accepts a probe to the target of a deploy that has returned
+    "host in use"; the repaired rules reject that trace. *)
+Theorem c17_refuted_pinned_D4 :
+  run step_pinned init d4_trace <> None /\ run step init d4_trace = None /\
+  (exists s, run step_pinned init (firstn 11 d4_trace) = Some s /\ tgt_probing s 0 = true /\
+             nth_error d4_trace 10 = Some (mkEv 0 (ACmd 1) (KReturn 1 (CRErr 3))) /\
+             nth_error d4_trace 3 = Some (mkEv 0 (ACmd 1) (KLbNew 0 [0%nat])) /\
+             nth_error d4_trace 11 = Some (mkEv 1000 AEnv (KProbeSent d4_name true))).
+Proof. exact d4_refuted. Qed.
+Print Assumptions c17_refuted_pinned_D4.
+
+(** ** Non-vacuity: real traces (recorded from /repo by harness/sim_test.go,
+    projected onto the kinds the view reads; times in ns).
+    [ex_redeploy]: deploy web [ta]; a request that hangs; redeploy web [tb]
+    (deploy_timeout 2 s, drain_timeout 1 s; tb healthy at the second probe, 1 s);
+    the drain of ta runs into its deadline at 2 s; remove web at 3 s.
+    [ex_failed]: deploy api [tc] that never answers (deploy_timeout 1 s) fails at
+    1 s; deploy web [td]; deploy zz on the same host fails with a host conflict. *)
+Local Close Scope N_scope.
+Definition ra_0 : str := [x77;x65;x62].
+Definition ra_1 : str := [x74;x61;x3a;x38;x30].
+Definition ra_2 : str := [x74;x62;x3a;x38;x30].
+Definition ex_redeploy : trace := [mkEv 0 (ACmd 1) (KIssue 1 CkDeploy ra_0);
+ mkEv 0 (ACmd 1) (KParams 1 2000000000 1000000000 0);
+ mkEv 0 AEnv (KTargetName 0 ra_1);
+ mkEv 0 (ACmd 1) (KLbNew 0 [0]);
+ mkEv 0 AEnv (KSvcName 0 ra_0);
+ mkEv 0 (ACmd 1) (KDeployLb 0 false 0);
+ mkEv 0 AEnv (KProbeSent ra_1 true);
+ mkEv 0 (AGo 10) (KWaiter 0 true);
+ mkEv 0 (ACmd 1) (KDeployWaited 0 true);
+ mkEv 0 (ACmd 1) (KSlot 0 false 0 None);
+ mkEv 0 (ACmd 1) (KInstall 0 true);
+ mkEv 0 (ACmd 1) (KSnapCollect [0]);
+ mkEv 0 (ACmd 1) (KSnapCreate);
+ mkEv 0 (ACmd 1) (KSnapWrite);
+ mkEv 0 (ACmd 1) (KSnapRename);
+ mkEv 0 (ACmd 1) (KReturn 1 CROk);
+ mkEv 0 (AReq 1) (KClaim 0 1);
+ mkEv 0 (ACmd 2) (KIssue 2 CkDeploy ra_0);
+ mkEv 0 (ACmd 2) (KParams 2 2000000000 1000000000 0);
+ mkEv 0 AEnv (KSvcName 1 ra_0);
+ mkEv 0 (ACmd 2) (KSvcCopy 0 1);
+ mkEv 0 AEnv (KTargetName 1 ra_2);
+ mkEv 0 (ACmd 2) (KLbNew 1 [1]);
+ mkEv 0 (ACmd 2) (KDeployLb 1 false 1);
+ mkEv 0 AEnv (KProbeSent ra_2 false);
+ mkEv 1000000000 AEnv (KProbeSent ra_2 true);
+ mkEv 1000000000 (AGo 14) (KWaiter 1 true);
+ mkEv 1000000000 (ACmd 2) (KDeployWaited 1 true);
+ mkEv 1000000000 (ACmd 2) (KSlot 1 false 1 (Some 0));
+ mkEv 1000000000 (ACmd 2) (KInstall 1 true);
+ mkEv 1000000000 (ACmd 2) (KSnapCollect [1]);
+ mkEv 1000000000 (ACmd 2) (KSnapCreate);
+ mkEv 1000000000 (ACmd 2) (KSnapWrite);
+ mkEv 1000000000 (ACmd 2) (KSnapRename);
+ mkEv 1000000000 (AGo 15) (KStateSet 0 THealthy TDraining);
+ mkEv 1000000000 (AGo 15) (KDrainBegin 0 THealthy 1000000000);
+ mkEv 1000000000 (AGo 15) (KDrainSnapshot 0 [(1, false)]);
+ mkEv 1000000000 AEnv (KProbeSent ra_1 true);
+ mkEv 2000000000 AEnv (KProbeSent ra_1 true);
+ mkEv 2000000000 AEnv (KProbeSent ra_2 true);
+ mkEv 2000000000 (AGo 15) (KDrainDeadline 0);
+ mkEv 2000000000 (AGo 15) (KDrainCancelRest 0);
+ mkEv 2000000000 (AGo 15) (KStateSet 0 THealthy THealthy);
+ mkEv 2000000000 (ACmd 2) (KLbDispose 0);
+ mkEv 2000000000 (ACmd 2) (KProbeStop 0);
+ mkEv 2000000000 (ACmd 2) (KReturn 2 CROk);
+ mkEv 2000000000 (AReq 1) (KEnd 0 1);
+ mkEv 3000000000 AEnv (KProbeSent ra_2 true);
+ mkEv 3000000000 (ACmd 3) (KIssue 3 CkRemove ra_0);
+ mkEv 3000000000 (ACmd 3) (KParams 3 0 0 0);
+ mkEv 3000000000 (ACmd 3) (KLbDispose 1);
+ mkEv 3000000000 (ACmd 3) (KProbeStop 1);
+ mkEv 3000000000 (ACmd 3) (KRemoved 1);
+ mkEv 3000000000 (ACmd 3) (KSnapCollect []);
+ mkEv 3000000000 (ACmd 3) (KSnapCreate);
+ mkEv 3000000000 (ACmd 3) (KSnapWrite);
+ mkEv 3000000000 (ACmd 3) (KSnapRename);
+ mkEv 3000000000 (ACmd 3) (KReturn 3 CROk)].
+
+Definition fa_0 : str := [x61;x70;x69].
+Definition fa_1 : str := [x74;x63;x3a;x38;x30].
+Definition fa_2 : str := [x77;x65;x62].
+Definition fa_3 : str := [x74;x64;x3a;x38;x30].
+Definition fa_4 : str := [x7a;x7a].
+Definition fa_5 : str := [x74;x65;x3a;x38;x30].
+Definition ex_failed : trace := [mkEv 0 (ACmd 1) (KIssue 1 CkDeploy fa_0);
+ mkEv 0 (ACmd 1) (KParams 1 1000000000 0 0);
+ mkEv 0 AEnv (KTargetName 0 fa_1);
+ mkEv 0 (ACmd 1) (KLbNew 0 [0]);
+ mkEv 0 AEnv (KSvcName 0 fa_0);
+ mkEv 0 (ACmd 1) (KDeployLb 0 false 0);
+ mkEv 0 AEnv (KProbeSent fa_1 false);
+ mkEv 1000000000 AEnv (KProbeSent fa_1 false);
+ mkEv 1000000000 (AGo 21) (KWaiter 0 false);
+ mkEv 1000000000 (AGo 21) (KProbeStop 0);
+ mkEv 1000000000 (ACmd 1) (KDeployWaited 0 false);
+ mkEv 1000000000 (ACmd 1) (KLbDispose 0);
+ mkEv 1000000000 (ACmd 1) (KReturn 1 (CRErr 2));
+ mkEv 2000000000 (ACmd 2) (KIssue 2 CkDeploy fa_2);
+ mkEv 2000000000 (ACmd 2) (KParams 2 1000000000 0 0);
+ mkEv 2000000000 AEnv (KTargetName 1 fa_3);
+ mkEv 2000000000 (ACmd 2) (KLbNew 1 [1]);
+ mkEv 2000000000 AEnv (KSvcName 1 fa_2);
+ mkEv 2000000000 (ACmd 2) (KDeployLb 1 false 1);
+ mkEv 2000000000 AEnv (KProbeSent fa_3 true);
+ mkEv 2000000000 (AGo 23) (KWaiter 1 true);
+ mkEv 2000000000 (ACmd 2) (KDeployWaited 1 true);
+ mkEv 2000000000 (ACmd 2) (KSlot 1 false 1 None);
+ mkEv 2000000000 (ACmd 2) (KInstall 1 true);
+ mkEv 2000000000 (ACmd 2) (KSnapCollect [1]);
+ mkEv 2000000000 (ACmd 2) (KSnapCreate);
+ mkEv 2000000000 (ACmd 2) (KSnapWrite);
+ mkEv 2000000000 (ACmd 2) (KSnapRename);
+ mkEv 2000000000 (ACmd 2) (KReturn 2 CROk);
+ mkEv 2000000000 (ACmd 3) (KIssue 3 CkDeploy fa_4);
+ mkEv 2000000000 (ACmd 3) (KParams 3 1000000000 0 0);
+ mkEv 2000000000 AEnv (KTargetName 2 fa_5);
+ mkEv 2000000000 (ACmd 3) (KLbNew 2 [2]);
+ mkEv 2000000000 AEnv (KSvcName 2 fa_4);
+ mkEv 2000000000 (ACmd 3) (KDeployLb 2 false 2);
+ mkEv 2000000000 AEnv (KProbeSent fa_5 true);
+ mkEv 2000000000 (AGo 26) (KWaiter 2 true);
+ mkEv 2000000000 (ACmd 3) (KDeployWaited 2 true);
+ mkEv 2000000000 (ACmd 3) (KSlot 2 false 2 None);
+ mkEv 2000000000 (ACmd 3) (KInstall 2 false);
+ mkEv 2000000000 (ACmd 3) (KSnapCollect [1]);
+ mkEv 2000000000 (ACmd 3) (KSnapCreate);
+ mkEv 2000000000 (ACmd 3) (KSnapWrite);
+ mkEv 2000000000 (ACmd 3) (KSnapRename);
+ mkEv 2000000000 (ACmd 3) (KLbDispose 2);
+ mkEv 2000000000 (ACmd 3) (KProbeStop 2);
+ mkEv 2000000000 (ACmd 3) (KReturn 3 (CRErr 3));
+ mkEv 3000000000 AEnv (KProbeSent fa_3 true);
+ mkEv 4000000000 AEnv (KProbeSent fa_3 true);
+ mkEv 4000000000 (AGo 18) (KProbeStop 1)].
+Local Open Scope N_scope.
+
+Example ex_redeploy_accepted : accepted ex_redeploy = true.
+Proof. vm_compute. reflexivity. Qed.
+
+(** the redeploy returns at mark + drain_timeout = 2 s (its bound is 3 s): *)
+Example ex_redeploy_return : In (mkEv 2000000000 (ACmd 2) (KReturn 2 CROk)) ex_redeploy.
+Proof. vm_compute. tauto. Qed.
+
+Example ex_failed_accepted : accepted ex_failed = true.
+Proof. vm_compute. reflexivity. Qed.
+
+Example ex_failed_returns :
+  In (mkEv 1000000000 (ACmd 1) (KReturn 1 (CRErr 2))) ex_failed /\
+  In (mkEv 2000000000 (ACmd 3) (KReturn 3 (CRErr 3))) ex_failed.
+Proof. vm_compute. tauto. Qed.
+
+(** the rules bite: the same traces with one return a second late, or with a
+    probe to the removed / failed target appended, are rejected *)
+Definition late (c : nat) (d : N) (tr : trace) : trace :=
+  map (fun e => match e_k e with
+                | KReturn c' _ => if Nat.eqb c c' then mkEv (e_t e + d) (e_by e) (e_k e) else e
+                | _ => e end) tr.
+Definition upto_return (c : nat) (tr : trace) : trace :=
+  (fix go (l : trace) : trace :=
+     match l with
+     | [] => []
+     | e :: r => match e_k e with
+                 | KReturn c' _ => if Nat.eqb c c' then [e] else e :: go r
+                 | _ => e :: go r end
+     end) tr.
+
+Example ex_late_return_rejected : accepted (late 2 1000000000 (upto_return 2 ex_redeploy)) = false.
+Proof. vm_compute. reflexivity. Qed.
+Example ex_upto_return_accepted : accepted (upto_return 2 ex_redeploy) = true.
+Proof. vm_compute. reflexivity. Qed.
+
+Example ex_probe_after_remove_rejected :
+  accepted (upto_return 3 ex_redeploy ++ [mkEv 4000000000 AEnv (KProbeSent ra_1 true)]) = false /\
+  accepted (upto_return 3 ex_redeploy) = true.
+Proof. vm_compute. split; reflexivity. Qed.
+
+Example ex_probe_after_failed_rejected :
+  accepted (upto_return 1 ex_failed ++ [mkEv 1500000000 AEnv (KProbeSent fa_1 true)]) = false /\
+  accepted (upto_return 1 ex_failed) = true.
+Proof. vm_compute. split; reflexivity. Qed.
